@@ -1,11 +1,11 @@
 CONSTANTS
-  Kind = "m"
-  MaxE = 3
-  MaxUR = 3
-  MaxF = 0
-  UseStop = TRUE
+  Kind = "x"
+  MaxE = 2
+  MaxUR = 2
+  MaxF = 1
+  UseStop = FALSE
   Flat = FALSE
-  Pre = FALSE
+  Pre = TRUE
 SPECIFICATION Spec
 INVARIANTS InvExact InvRoundTrip InvNearest InvBounded PrintSchedules
 CHECK_DEADLOCK FALSE
